@@ -10,6 +10,7 @@ import (
 
 	"github.com/corazawaf/coraza/v3/experimental/plugins/plugintypes"
 	"github.com/corazawaf/coraza/v3/internal/collections"
+	stringsutil "github.com/corazawaf/coraza/v3/internal/strings"
 	urlutil "github.com/corazawaf/coraza/v3/internal/url"
 )
 
@@ -25,8 +26,13 @@ func (*urlencodedBodyProcessor) ProcessRequest(reader io.Reader, v plugintypes.T
 	b := buf.String()
 	values := urlutil.ParseQuery(b, '&')
 	argsCol := v.ArgsPost()
-	for k, vs := range values {
-		argsCol.Set(k, vs)
+	// Add (not Set) each value: with case-insensitive keys "a=1&A=2" are two
+	// values of the same key and Set would silently drop one of them, which
+	// one depending on map order.
+	for _, k := range stringsutil.SortedKeys(values) {
+		for _, val := range values[k] {
+			argsCol.Add(k, val)
+		}
 	}
 	v.RequestBody().(*collections.Single).Set(b)
 	v.RequestBodyLength().(*collections.Single).Set(strconv.Itoa(len(b)))
